@@ -455,3 +455,24 @@ func zzH_C17_stalled_peer_request_ends(t *zzT) {
 	t.Assert(len(mp.resCh) == 0, "no pending entry is leaked")
 	t.Reach("end")
 }
+
+// C17 "a response is never delivered to a different request": the correlation key. Two requests created by the
+// same node for the same procedure with the same payload within the same second (block sync asks every peer
+// for getLastBlock with an empty payload) carry different request IDs, so their pending entries cannot collide.
+// (seed C17-7 derived the ID from sender, procedure, payload and the creation time in seconds.)
+//
+//zz:opt loop=4000
+//zz:stub time.Now zzStubNow
+//zz:stub github.com/google/uuid.New zz17UUID
+func zzH_C17_request_ids_unique(t *zzT) {
+	zz17UUIDSeq = 0
+	if t.Symbolic() {
+		zzClockSec = 1_700_000_000
+	}
+	n := t.Range("payload.len", 0, 2)
+	data := t.Bytes("payload", n)
+	a := newRequestMessage(zzPeerID(1), "getLastBlock", data)
+	b := newRequestMessage(zzPeerID(1), "getLastBlock", append([]byte{}, data...))
+	t.Assert(a.ID != b.ID, "two requests with the same sender, procedure, payload and second carry different IDs")
+	t.Reach("end")
+}
